@@ -49,21 +49,25 @@ META = {
               "(b) one-step maximal munch against cmake-language(7): for every reference token class, coverage by the expected rules, no longer match by any of the token rules "
               "for every admissible following text, tie-break to the expected class (z3, unbounded lengths, bracket level <= D). (c) reference token-sequence language == language of the "
               "parser ATN (both inclusions, z3). (d) inductive-step shards assert 'no exception' incl. a symbolic command name. (e) translator validation: real CMakeLexer vs the regex "
-              "model on the repo's files/tests, z3 witnesses and seeded random strings.",
+              "model on the repo's files/tests, z3 witnesses and seeded random strings; thorough: every module shipped with CMake through the real Documenter (corpus replay). "
+              "(f) witness replay: z3 picks valid files with large sizes (deep parentheses, high bracket levels, many arguments/commands, long lines); the real CLI must process each to completion.",
   assumptions=["legacy unquoted arguments are outside (as the property says)"], outside=["bracket/parenthesis depth > D", "CMake's own lexer is represented by manual-derived regexes"],
   trusted=TRUSTED_E2 + TRUSTED_CH),
  "C06": dict(
   explanation="(a) local fault lemmas (z3 on the lexer ATN): for each fault language of the remaining input (unterminated quote, backslash+alnum, backslash at EOF, bad escape inside quotes, "
               "unterminated #[[ / #[=[ ...) no live or skipped token rule matches a prefix, and argument token languages contain valid escapes only: the next lexer event is an error or a dead token; "
               "(b) the parser ATN accepts nothing outside the reference sequence language (unbalanced parentheses, bare words, dead tokens); (c) CrossHair: the error-listener dispatch of BOTH the real "
-              "Documenter's lexer and parser raises for every reported error; (d) CrossHair on a virtual file system: a file whose processing raises leaves document() with the exception and nothing is written/printed for it.",
+              "Documenter's lexer and parser raises for every reported error; (d) CrossHair on a virtual file system: a file whose processing raises leaves document() with the exception and nothing is written/printed for it; "
+              "(e) witness replay: z3 picks members of (valid prefix . fault . valid suffix) for 7 fault classes x 6-7 position classes x 2 sizes; the real cminx.main must fail and write nothing for each "
+              "(this closes the joint 'ANTLR's error recovery', which the lemmas trust; it found D13).",
   assumptions=["faults at a token boundary (boundaries are the reference boundaries by C05.b)", "ANTLR calls the listener for every mismatch (runtime contract)"],
   outside=["faults inside comments (the property excludes them)", "unterminated bracket *arguments* (not in the property's list; lexed as legacy unquoted text)"],
   trusted=TRUSTED_E2 + TRUSTED_CH),
  "C07": dict(
   explanation="Nesting lemma: every entry kind (incl. a class with constructor, methods, attribute, inner class) with symbolic names/arguments and doc lines of shard-constant reST shapes "
               "(plain, blank, field, bullet, indented continuation, nested directive, literal marker) is rendered by the real *.process + RSTWriter to exactly spec_render, whose nesting "
-              "(options under the heading, blank line, content at 3*(d+1) spaces, nested directives one level deeper, entries as column-0 siblings) is evident from its construction.",
+              "(options under the heading, blank line, content at 3*(d+1) spaces, nested directives one level deeper, entries as column-0 siblings) is evident from its construction. "
+              "C07.b validates that lemma (not a solver verdict): 490 pages rendered by the real code are parsed by the real docutils into title / module / entry siblings without error-level messages.",
   assumptions=["names/arguments contain no line breaks (the property's precondition)"],
   outside=["that this indentation lemma implies a clean docutils parse for every valid reST body is argued, not solved; docutils itself is not executed symbolically"],
   trusted=TRUSTED_CH),
@@ -101,7 +105,8 @@ META = {
   outside=["file and directory names are concrete (menus incl. dots, dashes, mixed case, 3 levels); symbolic names through posixpath do not terminate"], trusted=TRUSTED_CH),
  "C14": dict(
   explanation="Same harness family: every recorded index.rst (real RSTWriter/Directive output) has a toctree listing exactly the processed cmake files of its directory and <sub>/index.rst for "
-              "exactly its processed subdirectories, each once; every toctree entry has a recorded target; titles = prefix / prefix+sep+relative directory.",
+              "exactly its processed subdirectories, each once; every toctree entry has a recorded target; titles = prefix / prefix+sep+relative directory (also for separators other than '.'); "
+              "closure mode: for sub-directories holding only mixed-case *.CMAKE files every toctree entry still has a target and every page is reachable.",
   assumptions=["as C13"], outside=["as C13"], trusted=TRUSTED_CH),
  "C15": dict(
   explanation="Same harness family with the matcher a fully symbolic predicate over the paths CMinx asks about: an entry is processed iff the predicate is false for it and its ancestors; "
@@ -110,11 +115,12 @@ META = {
  "C16": dict(
   explanation="CrossHair through the real cminx.main -> argparse -> confuse -> config_template -> dict_to_settings, one shard per option of the input/output/rst sections (taken from the real template): "
               "for every subset of sources that set the option and symbolic values, the value in effect == highest-priority source, else the packaged default; exclude filters = union; "
-              "output directory resolution incl. relative_to_config; wrong type rejected.",
+              "output directory resolution incl. relative_to_config (set in either file), with and without a -s file, against the working directory at the time main() runs; wrong type rejected.",
   assumptions=["YAML syntax is outside (loader stubbed with symbolic dictionaries)", "logging.config replaced by {'version': 1}", "CLI values do not start with '-' (argparse convention)"],
   outside=["the platform rule locating the per-user file"], trusted=TRUSTED_CH + ["confuse, argparse executed symbolically as they are"]),
  "C17": dict(
-  explanation="(a) relational virtual-FS harness: same tree listed in another order, run from another working directory with a relative input path => identical recorded writes; "
+  explanation="(a) relational virtual-FS harness: same tree listed in another order (incl. names differing only in letter case), run from another working directory with a relative input path, "
+              "or after another input was documented with the same Settings object (as main() does) => identical recorded writes; "
               "(b) frame lemma: processing any pair of command kinds leaves RSTWriter.heading_level_chars, the constructors' default Settings instances and the passed Settings unchanged, "
               "and re-processing after an unrelated file gives the same page; (c) lone file: title/module name = base name, independent of the location.",
   assumptions=["as C13"], outside=["hash-seed independence is NOT decided (no symbolic handle on PYTHONHASHSEED)"], trusted=TRUSTED_CH),
@@ -124,11 +130,13 @@ META = {
   assumptions=["as C13"], outside=["order between directories in stdout mode", "the per-user configuration directory confuse creates in main()"], trusted=TRUSTED_CH),
  "C19": dict(
   explanation="E3: the body of cminx_gen_rst is parsed from cmake/cminx.cmake and interpreted over z3 string terms (DFS over the symbolic IS_DIRECTORY condition, |ARGN| = 0..3); "
-              "negated spec_argv (input, -o output, -r iff directory, extra arguments as one ordered block, COMMAND_ERROR_IS_FATAL ANY) is unsat; witnesses and fixtures are replayed with the real cmake -P.",
+              "negated spec_argv (input verbatim, -o output, -r iff directory, extra arguments as one ordered block, COMMAND_ERROR_IS_FATAL ANY) is unsat; list(APPEND/PREPEND/REMOVE_DUPLICATES) and "
+              "get_filename_component (uninterpreted) are interpreted; witnesses and fixtures are replayed with the real cmake -P (input reached through a symbolic link).",
   assumptions=["extra arguments non-empty and free of ';' (CMake list semantics)", "argparse is order-insensitive between optionals"],
   outside=["the generated cminx-config.cmake (needs an install tree)"], trusted=["z3", "lib/e3.py interpreter (validated against cmake -P on every run)"]),
  "C20": dict(
   explanation="Documents built through the public writer API by construction scripts (paragraphs, fields, lists, directives nested to depth 3 with options added before or after content, sections): "
-              "to_text() == spec_render(script) by one equality, repeated to_text()/str() equal and document unchanged, title framing after title change and clear().",
+              "to_text() == spec_render(script) by one equality, repeated to_text()/str() equal and document unchanged, also when the document is serialised after every construction step; "
+              "title framing after title change and clear(); deep chains (12/40 levels) and wide documents.",
   assumptions=["script structure is a shard constant; every string piece symbolic"], outside=[], trusted=TRUSTED_CH),
 }
